@@ -107,9 +107,10 @@ func (e Entry) trailer() string { return " -- " + e.Maint + "  " + e.Date.render
 
 type Doc struct {
 	Entries []Entry `json:"entries"`
-	Lead    int     `json:"lead_blank"`    // blank lines before the first entry
-	Between []int   `json:"between_blank"` // blank lines between entry i and i+1
-	Trail   int     `json:"trail_blank"`   // blank lines after the last entry
+	Lead    int     `json:"lead_blank"`     // blank lines before the first entry
+	Between []int   `json:"between_blank"`  // blank lines between entry i and i+1
+	Trail   int     `json:"trail_blank"`    // blank lines after the last entry
+	CRLF    bool    `json:"crlf,omitempty"` // every line of the file ends in CR LF (layout offsets are not valid then)
 }
 
 // Layout records where the parts of each entry are in the rendered text.
@@ -152,6 +153,9 @@ func (d Doc) Render() (string, Layout) {
 	}
 	b.WriteString(strings.Repeat("\n", d.Trail))
 	l.Len = b.Len()
+	if d.CRLF {
+		return strings.Replace(b.String(), "\n", "\r\n", -1), l
+	}
 	return b.String(), l
 }
 
@@ -261,5 +265,7 @@ func fixedDocs() []Doc {
 		mkDoc([]Pick{{Date: 5, Body: 7}, {Date: 6, Dists: 2, Body: 8, Maint: 4}, {Maint: 5, Body: 9, Version: 3}}, 0, []int{1, 3}, 0),
 		mkDoc([]Pick{{Body: 11, After: 1, Opts: 3}, {Before: 1, Version: 1, Body: 12, Dists: 3}}, 2, []int{1}, 1),
 		mkDoc([]Pick{{Body: 14, Opts: 1, Dists: 1}, {Body: 16, Source: 2, Date: 1}, {Body: 1, Maint: 3, Date: 3}}, 0, []int{1, 1}, 0),
+		// byte classes (the extended alternatives start at base.*; valid once applyAudit has run)
+		mkDoc([]Pick{{Body: base.body, Maint: base.maint, Opts: base.opts}, {Body: base.body + 1, Maint: base.maint + 2, Dists: base.dists + 1, Opts: base.opts + 1}}, 0, []int{1}, 0),
 	}
 }
